@@ -540,6 +540,19 @@ func vSerMetaKind() *vSerKind {
 
 type vHybWriter struct{ parts [4]bytes.Buffer }
 
+// vFailingWriter accepts `left` bytes and then fails every write.
+type vFailingWriter struct{ left int }
+
+func (w *vFailingWriter) Write(p []byte) (int, error) {
+	if len(p) <= w.left {
+		w.left -= len(p)
+		return len(p), nil
+	}
+	n := w.left
+	w.left = 0
+	return n, fmt.Errorf("no space left on device")
+}
+
 func vSerHybridKind(v, t, m bool) *vSerKind {
 	mk := func() any {
 		var vi VectorIndex
@@ -827,6 +840,17 @@ func (s *vSerSys) roundTrip(h []string) {
 	}
 	s.c.Evaluations++
 	before := s.k.observe(s.src)
+	// a snapshot whose destination FAILS (disk full after a few bytes; the position varies
+	// with the history) precedes the real one on every third state: a failed WriteTo leaves
+	// nothing behind that a later WriteTo would emit
+	if hh := vHash(strings.Join(h, ";")); hh%3 == 0 {
+		fw := &vFailingWriter{left: int(hh/3%4) * 9}
+		func() {
+			defer func() { recover() }()
+			s.k.write(s.src, fw)
+		}()
+		before = s.k.observe(s.src)
+	}
 	var buf bytes.Buffer
 	n, err := s.k.write(s.src, &buf)
 	if err != nil {
